@@ -7,7 +7,10 @@
    producer's first turn into /init; stateless turns; cancel branch) and vgi_rpc/http/_client.py
    (HttpStreamSession: batches preloaded by /init, continuation tokens, exchange, cancel).
 
-   The call is chosen in Init:  script = [tr, kind, hdr, steps, ops, pert]
+   The call is chosen in Init:  script = [tr, api, kind, hdr, steps, ops, pert]
+     api     how an HTTP producer session is read: "iter" (__iter__: preloaded batches, then continuation tokens followed
+             inside a generator) | "nwt" (next_with_token(): one complete response per call, the session keeps the token;
+             the entry point relays use) -- "iter" everywhere else
      tr      "pipe" (socket transports: lock-step streams on one connection) | "http" (stateless turns)
      steps   what successive process() calls do: "emit" | "logemit" (log, then emit) | "emitfin" (emit and finish in
              the same step) | "fin" | "log" (logs but neither emits nor finishes) | "raise";
@@ -41,9 +44,10 @@ Tails(kind) == IF kind = "prod"
                ELSE {<<"c">>, <<"x">>, <<"x", "t">>, <<"x", "x">>}
 OpsFor(kind) == {Ticks(k) \o tl : k \in 0..MaxTicks, tl \in Tails(kind)}
 Perts(kind) == IF kind = "prod" THEN {"exact"} ELSE {"exact", "reordered", "compat", "diffset"}
-Scripts == UNION {{[tr |-> tp, kind |-> kd, hdr |-> hd, steps |-> st, ops |-> op, pert |-> pt] :
-                      tp \in {"pipe", "http"}, hd \in BOOLEAN, st \in StepScripts, op \in OpsFor(kd), pt \in Perts(kd)} :
-                  kd \in {"prod", "exch"}}
+Apis(tp, kd) == IF tp = "http" /\ kd = "prod" THEN {"iter", "nwt"} ELSE {"iter"}
+Scripts == UNION {UNION {{[tr |-> tp, api |-> ap, kind |-> kd, hdr |-> hd, steps |-> st, ops |-> op, pert |-> pt] :
+                            ap \in Apis(tp, kd), hd \in BOOLEAN, st \in StepScripts, op \in OpsFor(kd), pt \in Perts(kd)} :
+                         tp \in {"pipe", "http"}} : kd \in {"prod", "exch"}}
 
 VARIABLES script, c2s, s2c, srv, cli, hist
 vars == <<script, c2s, s2c, srv, cli, hist>>
@@ -61,6 +65,7 @@ Init == /\ script \in Scripts
 
 Http == script.tr = "http"
 Prod == script.kind = "prod"
+Nwt == script.api = "nwt"
 StepOf(i) == IF i <= Len(script.steps) THEN script.steps[i] ELSE IF Prod THEN "fin" ELSE "emit"
 Seen == IF Prod THEN "tick" ELSE "declared"      \* _coerce_input_batch hands the state the declared schema
 Rejected == ~Prod /\ script.pert = "diffset"      \* ... or refuses the batch before the state sees it
@@ -211,7 +216,7 @@ CDrainErr ==
 \* preloaded, checks the finished flag once, then follows continuation tokens, one request per turn
 GenNext == IF cli.gen = "loop" THEN "loop" ELSE "init"
 CTickHttpProd ==
-  /\ Http /\ Prod /\ cli.pc = "tick"
+  /\ Http /\ Prod /\ ~Nwt /\ cli.pc = "tick"
   /\ IF cli.pend # <<>>
      THEN /\ Log(Ev("D", "", Head(cli.pend), "")) /\ UNCHANGED <<c2s, s2c>>
           /\ cli' = IF cli.cur = "t" THEN [Done(cli) EXCEPT !.pend = Tail(cli.pend), !.gen = GenNext]
@@ -229,6 +234,29 @@ CTickHttpProd ==
                [] x.t = "K" -> cli' = [cli EXCEPT !.await = FALSE] /\ UNCHANGED hist
                [] x.t = "Z" -> Log(Ev("S", "", 0, "")) /\ cli' = [Done(cli) EXCEPT !.ended = TRUE, !.gen = "none"]
                [] x.t = "E" -> Log(Ev("E", "", 0, "")) /\ cli' = [Done(cli) EXCEPT !.ended = TRUE, !.gen = "none"]
+  /\ UNCHANGED <<script, srv>>
+\* http producer read through next_with_token(): a preloaded batch first; then one continuation request per call whose
+\* response is read completely (batch and the token -- or the end -- behind it) before the batch is returned
+CTickHttpNwt ==
+  /\ Http /\ Prod /\ Nwt /\ cli.pc = "tick"
+  /\ IF cli.pend # <<>>
+     THEN /\ Log(Ev("D", "", Head(cli.pend), "")) /\ UNCHANGED <<c2s, s2c>>
+          /\ cli' = IF cli.cur = "t" THEN [Done(cli) EXCEPT !.pend = Tail(cli.pend)] ELSE [cli EXCEPT !.pend = Tail(cli.pend)]
+     ELSE IF cli.derr
+     THEN /\ Log(Ev("E", "", 0, "")) /\ cli' = [Done(cli) EXCEPT !.ended = TRUE, !.derr = FALSE] /\ UNCHANGED <<c2s, s2c>>
+     ELSE IF cli.fin \/ ~cli.tok
+     THEN /\ Log(Ev("S", "", 0, "")) /\ cli' = [Done(cli) EXCEPT !.ended = TRUE, !.fin = TRUE] /\ UNCHANGED <<c2s, s2c>>
+     ELSE IF ~cli.await
+     THEN /\ c2s' = Append(c2s, [t |-> "in"]) /\ cli' = [cli EXCEPT !.await = TRUE] /\ UNCHANGED <<s2c, hist>>
+     ELSE /\ s2c # <<>> /\ UNCHANGED c2s
+          /\ LET x == Head(s2c) IN
+             CASE x.t = "D" -> /\ Len(s2c) >= 2 /\ s2c' = Tail(Tail(s2c))
+                               /\ Log(Ev("D", "", x.n, ""))
+                               /\ LET more == s2c[2].t = "K"
+                                      c1 == [cli EXCEPT !.tok = more, !.fin = ~more, !.await = FALSE] IN
+                                  cli' = IF cli.cur = "t" THEN Done(c1) ELSE c1
+               [] x.t = "Z" -> s2c' = Tail(s2c) /\ Log(Ev("S", "", 0, "")) /\ cli' = [Done(cli) EXCEPT !.ended = TRUE, !.fin = TRUE, !.tok = FALSE]
+               [] x.t = "E" -> s2c' = Tail(s2c) /\ Log(Ev("E", "", 0, "")) /\ cli' = [Done(cli) EXCEPT !.ended = TRUE]
   /\ UNCHANGED <<script, srv>>
 \* http exchange: one request, one response
 CTickHttpExch ==
@@ -278,7 +306,7 @@ CCancelHttp ==
   /\ UNCHANGED <<script, c2s, s2c, srv>>
 
 Client == CCall \/ CSessionPipe \/ CSessionHttp \/ CSkip \/ CUseAfterCancel \/ COpStart \/ CTickPipe \/ CDrainErr
-          \/ CTickHttpProd \/ CTickHttpExch \/ CClose \/ CCancelPipe \/ CDrain \/ CCancelHttp
+          \/ CTickHttpProd \/ CTickHttpNwt \/ CTickHttpExch \/ CClose \/ CCancelPipe \/ CDrain \/ CCancelHttp
 Next == Client \/ Server
 Spec == Init /\ [][Next]_vars
 
